@@ -130,3 +130,20 @@ def min_minor(p, method, route):
     """Smallest minor version at which the sample request succeeds for an
     authorised caller (None if it never does) -- measured, not assumed."""
     return None
+
+
+def alloc_body_old_list():
+    return {'allocations': [{'resource_provider': {'uuid': RP1},
+                             'resources': {'VCPU': 1}}]}
+
+
+def alloc_body_versioned(p, minor, consumer, fmt='dict'):
+    """A PUT /allocations body in the dict format with exactly the fields
+    version 1.<minor> requires (dict format is accepted from 1.12)."""
+    b = {'allocations': {RP1: {'resources': {'VCPU': 1}}},
+         'project_id': 'proj', 'user_id': 'user'}
+    if minor >= 28:
+        b['consumer_generation'] = consumer_generation(p, consumer)
+    if minor >= 38:
+        b['consumer_type'] = 'INSTANCE'
+    return b
